@@ -13,6 +13,9 @@ class Gen(object):
                            k // 1000 not in (0, 31, 33) and v[4] <= 31)
         self.strs = sorted(k for k, v in B.items() if kind_of(v[1]) == 's' and
                            k // 1000 != 0 and 8 <= v[4] <= 256)
+        # class 00 (table-definition elements, all character data): legal anywhere, and the class that
+        # 221YYY suppresses together with classes 10+
+        self.cls0 = sorted(k for k, v in B.items() if k // 1000 == 0 and kind_of(v[1]) == 's' and 8 <= v[4] <= 256)
         self.q33 = sorted(k for k, v in B.items() if k // 1000 == 33)
         self.onebit = sorted(k for k, v in B.items() if v[4] == 1 and k // 1000 not in (0, 31))
         self.simple_seq = []
@@ -39,6 +42,8 @@ class Gen(object):
 
     def elem(self, strings=True):
         r = self.rng.random()
+        if strings and self.cls0 and r < 0.02:
+            return self.rng.choice(self.cls0)
         if r < 0.6:
             return self.rng.choice(self.num)
         if r < 0.85 or not strings or not self.strs:
@@ -91,8 +96,14 @@ class Gen(object):
                 use = [rng.choice(es), self.elem(False)]
                 out += ([203000 + rng.randint(2, 16)] + es + [203255] + use +
                         ([203000] if rng.random() < self.pclose else []))
-            elif allow_ops:
+            elif allow_ops and rng.random() < 0.5:
                 out += [221000 + 2, rng.choice(self.num), rng.choice([1001, 5001, 4001])]
+            elif allow_ops:
+                # a 221 range over elements of every class: 01-09 and 31 keep their data, 00 and 10+ have none
+                y = rng.randint(1, 4)
+                pool = [1001, 2001, 4001, 5001, 6001, 7004, 8002, 1015] + ([rng.choice(self.cls0)] if self.cls0 else []) + \
+                       [rng.choice(self.num), rng.choice(self.code), self.elem()]
+                out += [221000 + y] + [rng.choice(pool) for _ in range(y)]
             else:
                 out.append(self.elem())
         return out
